@@ -214,6 +214,7 @@ class Engine:
                 self.oblige('post', label, goal)
             for i, p in enumerate(c.canaries):
                 self.oblige('canary', str(i), zbool(self.spec(p, {'result': value})))
+            self.frame_obligations(c)
         else:
             if value in c.raises:
                 cond = c.raises[value]
@@ -223,6 +224,67 @@ class Engine:
                     self.oblige('post_on_raise', f'{value}.{label}', zbool(self.spec(p)))
             else:
                 self.oblige('safety', f'raise.{value}', z3.BoolVal(False))
+
+    def frame_obligations(self, c):
+        """Nothing outside `modifies` changes: every field of every parameter object that is not covered
+        by a modifies path must have its entry value on return."""
+        def covered(path):
+            return any(path == m or path.startswith(m + '.') for m in c.modifies)
+
+        def same(a, b):
+            if a is b:
+                return True
+            if z3.is_expr(a) and z3.is_expr(b):
+                return a.eq(b)
+            return type(a) is type(b) and not z3.is_expr(a) and isinstance(a, (int, str, bool, float, type(None))) and a == b
+
+        def walk(path, old, new, seen):
+            if covered(path):
+                return
+            if isinstance(old, Obj):
+                if id(old) in seen:
+                    return
+                seen.add(id(old))
+                if not isinstance(new, Obj):
+                    self.oblige('frame', path, z3.BoolVal(False))
+                    return
+                for k, ov in old.f.items():
+                    walk(f'{path}.{k}', ov, new.f.get(k), seen)
+                return
+            if hasattr(old, 'frame_terms'):
+                if not hasattr(new, 'frame_terms'):
+                    self.oblige('frame', path, z3.BoolVal(False))
+                    return
+                nt = new.frame_terms()
+                for k, ov in old.frame_terms().items():
+                    if not same(ov, nt[k]):
+                        self.oblige('frame', f'{path}.{k}', ov == nt[k])
+                return
+            if isinstance(old, Opt) and isinstance(new, Opt):
+                if not (same(old.isnone, new.isnone) and same(old.val, new.val)):
+                    self.oblige('frame', path, z3.And(old.isnone == new.isnone, z3.Or(old.isnone, zint(old.val) == zint(new.val))))
+                return
+            if isinstance(old, (TD, DT)) and type(old) is type(new):
+                if not same(old.us, new.us):
+                    self.oblige('frame', path, zint(old.us) == zint(new.us))
+                return
+            if isinstance(old, (Opaque, SeqFn, Closure, BoundMethod)):
+                return
+            if same(old, new):
+                return
+            if (z3.is_expr(old) or isinstance(old, (int, bool, float))) and (z3.is_expr(new) or isinstance(new, (int, bool, float))):
+                if z3.is_bool(old) or isinstance(old, bool):
+                    self.oblige('frame', path, zbool(old) == zbool(new))
+                else:
+                    self.oblige('frame', path, zint(old) == zint(new))
+                return
+            self.oblige('frame', path, z3.BoolVal(False))
+
+        params = [a.arg for a in self.fn.args.args]
+        seen = set()
+        for p in params:
+            if p in self.old_env and isinstance(self.old_env[p], Obj):
+                walk(p, self.old_env[p], self.env.get(p), seen)
 
     # ------------------------------------------------------------------ obligations / path condition
     def oblige(self, kind, label, goal, info=None):
@@ -557,7 +619,7 @@ class Engine:
                 return self.for_concrete(n, list(seq.keys()))
             if hasattr(seq, 'iterate'):
                 return seq.iterate(self, n, k)
-            if isinstance(seq, tuple) or not isinstance(seq, (SeqFn, ArrList, SeqView)):
+            if not isinstance(seq, (SeqFn, ArrList, SeqView)) and not (hasattr(seq, 'length') and hasattr(seq, 'elem')):
                 raise Unsupported(f'for over {seq!r}')
             if isinstance(seq, SeqView):
                 lo, hi, get = seq.lo, seq.base.length, seq.base.elem
@@ -622,6 +684,8 @@ class Engine:
             return fresh(name, BOOL)
         if t == 'opt_int':
             return Opt(fresh(name + '.isnone', BOOL), fresh(name))
+        if t == 'opt_real':
+            return Opt(fresh(name + '.isnone', BOOL), fresh(name, REAL))
         if isinstance(v, bool):
             return fresh(name, BOOL)
         if isinstance(v, int):
@@ -894,9 +958,27 @@ class Engine:
             return base[lo:hi]
         if isinstance(base, PyList) and all(isinstance(x, (int, type(None))) for x in (lo, hi)):
             return PyList(base.items[lo:hi])
+        if isinstance(base, Slice):
+            return self.slice_of_slice(base, lo, hi)
         if hasattr(base, 'getslice'):
             return base.getslice(self, lo, hi)
         raise Unsupported(f'{self.c.qual}: slice of {base!r}')
+
+    def slice_of_slice(self, s, lo, hi):
+        """b[lo:hi] of a bytes slice for 0 <= lo, hi (negative indices are a safety obligation)."""
+        a, b = zint(s.lo), zint(s.hi)
+        n = b - a
+        l = zint(0 if lo is None else lo)
+        self.oblige('safety', 'slice.index.nonneg', l >= 0)
+        nl = a + z3.If(l <= n, l, n)
+        if hi is None:
+            nh = b
+        else:
+            h = zint(hi)
+            self.oblige('safety', 'slice.index.nonneg', h >= 0)
+            nh = a + z3.If(h <= n, h, n)
+            nh = z3.If(nh >= nl, nh, nl)
+        return Slice(z3.simplify(nl), z3.simplify(nh), s.kind)
 
     def e_UnaryOp(self, e):
         v = self.eval(e.operand)
@@ -1216,6 +1298,14 @@ class Engine:
             ctor = self.c.ctors.get(name) or self.world.get('__ctors__', {}).get(name)
             if ctor is not None:
                 return ctor(self, args, kwargs)
+            if name in self.world.get('__inline_ctors__', ()):
+                cls = self.src.find_class(name)
+                init = next((m for m in cls.body if isinstance(m, ast.FunctionDef) and m.name == '__init__'), None) if cls else None
+                if init is None:
+                    raise Unsupported(f'constructor {name}: class or __init__ not found in {self.src.relpath}')
+                obj = Obj(name)
+                self.inline(init, None, args, kwargs, recv=obj)
+                return obj
             if name in self.world and callable(self.world[name]):
                 return self.call_value(self.world[name], args, kwargs, e)
             raise Unsupported(f'{self.c.qual}: unmodelled call {ftxt}(...)')
@@ -1282,6 +1372,8 @@ class Engine:
                 args[0].frozen = True
             self.store(e.func.value, recv.appended(args[0]))
             return None
+        if isinstance(recv, Slice) and name == 'tobytes':
+            return recv
         if isinstance(recv, dict) and name == 'get':
             return recv.get(args[0], args[1] if len(args) > 1 else None)
         if hasattr(recv, 'method'):
@@ -1489,6 +1581,8 @@ class Engine:
             return self.isinstance(v, tn)
         if name == 'str':
             return Opaque('str')
+        if name == 'memoryview' and isinstance(args[0], Slice):
+            return args[0]
         if name == 'divmod':
             a, b = zint(args[0]), zint(args[1])
             self.oblige('safety', 'div:divmod', b != 0)
@@ -1558,6 +1652,9 @@ class Engine:
             return TD(z3.simplify(total))
         if ftxt == 'time.time':
             return fresh('time', REAL)
+        if ftxt == 'io.BytesIO' and not e.args:
+            from .models.bufreader import BytesIOModel
+            return BytesIOModel()
         return NotImplemented
 
     def dt_replace(self, dt, kw):
